@@ -776,7 +776,9 @@ func (g *Graph) boolFlags() []types.Object {
 	var out []types.Object
 	g.flags = &[]types.Object{} // re-entrancy guard (LocalDef may ask for a dominance while flags are collected)
 	seen := map[types.Object]bool{}
-	consider := func(id *ast.Ident) {
+	depth := 0
+	var consider func(id *ast.Ident)
+	consider = func(id *ast.Ident) {
 		o := f.ObjOf(id)
 		v, ok := o.(*types.Var)
 		if !ok || seen[o] || v.IsField() || v.Pkg() == nil || v.Parent() == v.Pkg().Scope() {
@@ -786,7 +788,18 @@ func (g *Graph) boolFlags() []types.Object {
 		if !ok || b.Info()&types.IsBoolean == 0 {
 			return
 		}
-		if f.LocalDef(id) != nil {
+		if d := f.LocalDef(id); d != nil {
+			// a temporary: the flags are in its definition
+			if depth < 4 {
+				depth++
+				ast.Inspect(d, func(n ast.Node) bool {
+					if x, ok := n.(*ast.Ident); ok {
+						consider(x)
+					}
+					return true
+				})
+				depth--
+			}
 			return
 		}
 		// parameters are not flags
@@ -821,6 +834,32 @@ func (g *Graph) boolFlags() []types.Object {
 				}
 				return true
 			})
+		}
+	}
+	// a flag that is computed from other booleans (`retry = retry || failed`) makes those flags too
+	for round := 0; round < 3; round++ {
+		n0 := len(out)
+		ast.Inspect(f.Body, func(n ast.Node) bool {
+			as, ok := n.(*ast.AssignStmt)
+			if !ok || len(as.Lhs) != len(as.Rhs) {
+				return true
+			}
+			for i, l := range as.Lhs {
+				id, ok := l.(*ast.Ident)
+				if !ok || !seen[f.ObjOf(id)] {
+					continue
+				}
+				ast.Inspect(as.Rhs[i], func(m ast.Node) bool {
+					if x, ok := m.(*ast.Ident); ok {
+						consider(x)
+					}
+					return true
+				})
+			}
+			return true
+		})
+		if len(out) == n0 {
+			break
 		}
 	}
 	// flags that are assigned a boolean constant somewhere come first
